@@ -330,6 +330,17 @@ def _trip(prog, c, fn, weight, param, what, want=None):
     want = want if want is not None else R.sym(param)
     bad = []
     forms = []
+    # the same through contextlib.suppress(..): the exception is swallowed by the context manager
+    for w_ in ast.walk(fn):
+        if isinstance(w_, ast.With) and any(isinstance(it_.context_expr, ast.Call) and U(it_.context_expr.func).split(".")[-1] == "suppress" for it_ in w_.items):
+            for cl_ in [x for b_ in w_.body for x in ast.walk(b_) if isinstance(x, ast.Call)]:
+                try:
+                    w_c = weight(cl_, ex, dict(env))
+                except Exception:
+                    w_c = None
+                if w_c is not None:
+                    return Ob_trip(c, fn, False, f"`{U(cl_)[:60]}` (line {cl_.lineno}) runs under `suppress(..)`: a step that fails is skipped silently, "
+                                                 f"and fewer samples are added than requested", forms, what)
     # a counted call inside a `try` whose handler does not re-raise: a failed call is counted but adds nothing
     for tr_ in ast.walk(fn):
         if isinstance(tr_, ast.Try) and any(not any(isinstance(x, ast.Raise) for x in ast.walk(h_)) for h_ in tr_.handlers):
